@@ -405,9 +405,10 @@ def parentPath (p : Bytes) : Bytes :=
 def verifyUpload (e : Env) (uuid : Bytes) (sofar : List Touch) (k : List Touch → Plan) : Plan :=
   withPath (uploadInfoPath e uuid) sofar fun info => k (sofar ++ [rd info])
 
-/-- `delete_objects`: every key is resolved (and probed) before the first removal -/
+/-- `delete_objects`: every key is resolved (and probed) before the first removal; in between the bucket directory is
+    probed (902249e: `NoSuchBucket`) -/
 def deleteObjectsPlan (e : Env) (b : Bytes) : List Bytes → List Touch → List Bytes → Plan
-  | [], acc, paths => .ok (acc ++ paths.map rm)
+  | [], acc, paths => withPath (getBucketPath e b) acc fun bp => .ok (acc ++ [rd bp] ++ paths.map rm)
   | k :: rest, acc, paths =>
     withPath (getObjectPath e b k) acc fun p => deleteObjectsPlan e b rest (acc ++ [rd p]) (paths ++ [p])
 
